@@ -148,12 +148,14 @@ type Conn struct {
 	readsBlocked int // readers currently parked in Read
 	readCalls    int64
 
-	writes     []WriteRec
-	deadlines  []DeadlineRec
-	failWrite  map[int]error // 1-based write index -> error
-	writeN     int
-	KeepWrites bool // keep copies of written data (default true via New)
-	User       any  // program-specific state
+	writes      []WriteRec
+	deadlines   []DeadlineRec
+	failWrite   map[int]error // 1-based write index -> error
+	failFrom    int
+	failFromErr error
+	writeN      int
+	KeepWrites  bool // keep copies of written data (default true via New)
+	User        any  // program-specific state
 }
 
 // New creates a connection. seq may be nil (a private counter is used).
@@ -298,6 +300,9 @@ func (c *Conn) Write(p []byte) (int, error) {
 	if c.failWrite != nil {
 		ferr = c.failWrite[idx]
 	}
+	if ferr == nil && c.failFrom > 0 && idx >= c.failFrom {
+		ferr = c.failFromErr
+	}
 	rec := WriteRec{At: c.now(), Seq: c.seq.Add(1), Err: ferr}
 	if c.KeepWrites {
 		rec.Data = append([]byte(nil), p...)
@@ -427,6 +432,15 @@ func (c *Conn) FailWrite(k int, err error) {
 	c.mu.Unlock()
 }
 
+// FailWritesFromNow makes the next and every later client Write fail with err
+// (a socket whose sends fail persistently, e.g. ENETUNREACH).
+func (c *Conn) FailWritesFromNow(err error) {
+	c.mu.Lock()
+	c.failFrom = c.writeN + 1
+	c.failFromErr = err
+	c.mu.Unlock()
+}
+
 // FailNextWrite makes the next client Write fail with err.
 func (c *Conn) FailNextWrite(err error) {
 	c.mu.Lock()
@@ -441,7 +455,12 @@ func (c *Conn) FailNextWrite(err error) {
 func (c *Conn) ReadErrSet() bool { c.mu.Lock(); defer c.mu.Unlock(); return c.rerr != nil }
 
 // ClearWriteFaults disarms write failures that have not fired yet.
-func (c *Conn) ClearWriteFaults() { c.mu.Lock(); c.failWrite = nil; c.mu.Unlock() }
+func (c *Conn) ClearWriteFaults() {
+	c.mu.Lock()
+	c.failWrite = nil
+	c.failFrom = 0
+	c.mu.Unlock()
+}
 
 // Consumed reports whether injection id was fully read by the client.
 func (c *Conn) Consumed(id int64) bool {
